@@ -8,6 +8,7 @@ import (
 	"regexp"
 	"runtime"
 	"strconv"
+	"strings"
 	"sync"
 	"time"
 
@@ -17,8 +18,8 @@ import (
 	"verifmc/hub"
 
 	mhubtypes "github.com/MinterTeam/mhub2/module/x/mhub2/types"
-	"github.com/MinterTeam/mhub2/module/x/verifhook"
 	oracletypes "github.com/MinterTeam/mhub2/module/x/oracle/types"
+	"github.com/MinterTeam/mhub2/module/x/verifhook"
 )
 
 // C06: the state machine is deterministic. This file is only built with the map-order overlay
@@ -120,8 +121,8 @@ func NewC06(tier, alpha string) *C06 {
 	return c
 }
 
-func (c *C06) ID() string               { return "C06" }
-func (c *C06) Setup(in *hub.Instance)   {}
+func (c *C06) ID() string             { return "C06" }
+func (c *C06) Setup(in *hub.Instance) {}
 func (c *C06) SeedPaths() [][]engine.Op {
 	if c.Alpha == "hub3" {
 		// three accepted vote records with distinct nonces (what a late first voter walks over)
@@ -144,8 +145,8 @@ type c06Ghost struct {
 	Ev map[string]uint64
 }
 
-func (g *c06Ghost) Clone() Ghost  { return &c06Ghost{Ev: cloneU(g.Ev)} }
-func (g *c06Ghost) Canon() string { return canonMap(g.Ev) }
+func (g *c06Ghost) Clone() Ghost               { return &c06Ghost{Ev: cloneU(g.Ev)} }
+func (g *c06Ghost) Canon() string              { return canonMap(g.Ev) }
 func (c *C06) NewGhost(in *hub.Instance) Ghost { return &c06Ghost{Ev: map[string]uint64{}} }
 
 func (c *C06) Ops(s *HState) []engine.Op {
@@ -162,7 +163,8 @@ func (c *C06) Ops(s *HState) []engine.Op {
 		}
 		return ops
 	}
-	ops := []engine.Op{engine.OpN("Next")}
+	// NextLong: the next block starts more than the outgoing-transfer timeout later (expiry refunds run)
+	ops := []engine.Op{engine.OpN("Next"), engine.OpN("NextLong")}
 	for _, ch := range []string{"ethereum", "minter"} {
 		for _, d := range []string{"hub", "eth"} {
 			ops = append(ops, engine.OpN("Send", ch, d))
@@ -182,6 +184,8 @@ func (c *C06) apply(in *hub.Instance, g *c06Ghost, op engine.Op) (pruned bool) {
 	switch op.Kind {
 	case "Next":
 		return in.NextBlock(5) != nil
+	case "NextLong":
+		return in.NextBlock(86400) != nil
 	case "Boundary":
 		for {
 			b := in.Height%5 == 0
@@ -287,7 +291,11 @@ func (c *C06) Do(in *hub.Instance, gg Ghost, op engine.Op, st *engine.Step) {
 					site = log[i].Site
 				}
 			}
-			st.Violate("C06", "result_depends_on_map_iteration_order", site, "op %s: digest %s under canonical order, %s under %s", op, d0, d, desc)
+			rule := "result_depends_on_map_iteration_order"
+			if strings.HasPrefix(site, "clock:") {
+				rule = "result_depends_on_wall_clock_or_timer"
+			}
+			st.Violate("C06", rule, site, "op %s: digest %s under the default answer, %s under %s", op, d0, d, desc)
 		}
 	}
 	for i, p := range log {
@@ -399,7 +407,7 @@ func (c *C06) Do(in *hub.Instance, gg Ghost, op engine.Op, st *engine.Step) {
 
 func init() {
 	Register("C06", MultiRunner(func(tier string) ([]MultiCase, []string) {
-		dh, do, dl := 4, 3, 150*time.Second
+		dh, do, dl := 4, 3, 400*time.Second
 		if tier == "thorough" {
 			dh, do, dl = 6, 5, 12*time.Minute
 		}
@@ -409,7 +417,7 @@ func init() {
 				{Name: "oracle alphabet", Spec: NewC06(tier, "oracle"), Cfg: engine.Config{MaxDepth: do, Deadline: dl, ReplayLeaf: 20}},
 				{Name: "oracle holders alphabet (same set reported in different orders)", Spec: NewC06(tier, "holders"), Cfg: engine.Config{MaxDepth: do + 1, Deadline: dl, ReplayLeaf: 20}},
 			}, []string{
-				"built with the overlay generated by tools/maprw from the CURRENT tree: every range-over-map site of x/mhub2 and x/oracle is a choice point (sites listed in the evidence)",
+				"built with the overlay generated by tools/maprw from the CURRENT tree: every range-over-map site of x/mhub2 and x/oracle is a choice point (sites listed in the evidence); so is every call of time.Now / time.Since / time.Until / context.WithTimeout / context.WithDeadline (two answers: default instant or one hour later, deadline never fires or has already passed); other timers, global randomness and go statements in module code are listed as uninstrumented (the unchanged tree has none)",
 				"alphabets put >=2 entries into every iterated map: two token ids per chain in the pool at batching time, two event nonces / two conflicting claims in one tally, first vote of a new validator, power change (PowerDiff), two price sets, two holder lists, several validators",
 				"maps of <=4 keys: all n! orders; larger: reverse, rotations, adjacent swaps; deviation bound 1 (quick) / 2 (thorough) per transition",
 				"every transition is additionally executed (a) after serving every gRPC query of both modules on the committed and the working state (also between EndBlock and Commit) and (b) on a fresh instance (new keepers, codecs, stores) restored from the same state; both must reproduce the digest of state and events: process-local state outside the store would show",
